@@ -190,8 +190,8 @@ func genMergeTuple(rng *rand.Rand, p *c05Params) (*model.Tbl, []*model.Tbl, [][]
 				log(j, "sameadd differ=%v", differ)
 			}
 		case "coladd":
-			if keyless {
-				continue
+			if keyless && p.Identity != "X-base" {
+				continue // what the key of a keyless table is once its columns change is only clear when nothing else happens
 			}
 			name := fmt.Sprintf("new%d_%d", i, step)
 			if rng.Intn(3) == 0 {
@@ -582,6 +582,21 @@ func c05Run(c *fw.Case, env *fw.Env) *fw.Obs {
 				o.Status = "inconclusive"
 				o.Note = err2.Error()
 				return o
+			}
+			if len(base.PK) == 0 && strings.Contains(err2.Error(), "tables without a primary key must have the same columns") {
+				// wrgl has no notion of row identity across a column change when there is no key and says so; a refusal
+				// alters nothing. (Before the repair recorded in KNOWN_FINDINGS the result silently lost every row.)
+				colsChanged := false
+				for _, b := range branches {
+					if strings.Join(b.Cols, "\x00") != strings.Join(base.Cols, "\x00") {
+						colsChanged = true
+					}
+				}
+				if colsChanged {
+					o.Ev("keyless_column_change_refused", 1)
+					o.Key("refused/%s/%d", class, c.Seed%100000)
+					return o
+				}
 			}
 			o.Violate("merge-error/Merger/"+class, "%v\nscripts=%v", err2, scripts)
 			return o
@@ -1000,6 +1015,10 @@ func init() {
 					p.Ops = []string{"edit", "add", "remove", "coladd", "reorder"}
 				}
 				l.Add("cli", p, 0)
+			}
+			// fixed: merge(base; X, base) = X for a keyless table to which X adds a column
+			for rep := 0; rep < 6; rep++ {
+				l.Add("tuple", c05Params{NCols: 2 + rep%3, Branches: 2, Rows: 3 + rep*40, Ops: []string{"add"}, Intensity: rep % 2, Forced: []forcedOp{{0, "coladd"}}, Identity: "X-base", Output: []string{"rows", "blocks"}[rep%2], Swap: rep%3 == 0}, 0)
 			}
 			// fixed through the CLI: one branch drops a column while the other adds one / reorders (no conflicts possible)
 			for i, f := range [][]forcedOp{
